@@ -43,6 +43,17 @@ def crystal_library():
     L['afm-square'] = lambda: _c(a([[1., 1.], [-1., 1.]]), [a([0., 0.]), a([0.5, 0.5])], spins=[1, -1])
     L['afm-bcc'] = lambda: _c(np.eye(3), [a([0., 0., 0.]), a([0.5, 0.5, 0.5])], spins=[1, -1])
     L['spinvec-sc'] = lambda: _c(np.eye(3), [a([0., 0., 0.])], spins=[a([0., 0., 1.])])
+    L['hex1'] = lambda: _c(a([[1., 0.5, 0.], [0., np.sqrt(0.75), 0.], [0., 0., 1.25]]), [a([0., 0., 0.])])
+    L['rect1'] = lambda: _c(a([[1., 0.], [0., 1.5]]), [a([0., 0.])])
+    L['ortho1'] = lambda: _c(a([[1., 0., 0.], [0., 1.25, 0.], [0., 0., 1.5]]), [a([0., 0., 0.])])
+    L['wurtzite'] = lambda: _c(a([[0.5, 0.5, 0.], [-np.sqrt(0.75), np.sqrt(0.75), 0.], [0., 0., np.sqrt(8. / 3.)]]),
+                               [[a([1. / 3, 2. / 3, 0.]), a([2. / 3, 1. / 3, 0.5])], [a([1. / 3, 2. / 3, 0.375]), a([2. / 3, 1. / 3, 0.875])]])
+    # FCC in a rotated setting: x=[1-10], y=[11-2], z=[111] (symmetry axes with |z|>=0.75 and non-zero x component)
+    L['fcc111'] = lambda: _c(np.dot(a([[1 / np.sqrt(2), -1 / np.sqrt(2), 0.], [1 / np.sqrt(6), 1 / np.sqrt(6), -2 / np.sqrt(6)],
+                                        [1 / np.sqrt(3), 1 / np.sqrt(3), 1 / np.sqrt(3)]]),
+                                     0.5 * a([[0., 1., 1.], [1., 0., 1.], [1., 1., 0.]])), [a([0., 0., 0.])])
+    L['fm-hex'] = lambda: _c(a([[1., 0.5, 0.], [0., np.sqrt(0.75), 0.], [0., 0., 1.25]]), [a([0., 0., 0.])], spins=[1])
+    L['afm-hex'] = lambda: _c(a([[1., 0.5, 0.], [0., np.sqrt(0.75), 0.], [0., 0., 2.5]]), [a([0., 0., 0.]), a([0., 0., 0.5])], spins=[1, -1])
     L['fcc-nosym'] = lambda: _c(0.5 * a([[0., 1., 1.], [1., 0., 1.], [1., 1., 0.]]), [a([0., 0., 0.])], NOSYM=True)
     L['hcp-nosym'] = lambda: _c(a([[0.5, 0.5, 0.], [-np.sqrt(0.75), np.sqrt(0.75), 0.], [0., 0., np.sqrt(8. / 3.)]]),
                                 [a([1. / 3, 2. / 3, 0.25]), a([2. / 3, 1. / 3, 0.75])], NOSYM=True)
